@@ -143,6 +143,14 @@ def check(case, rec):
             if float(v[O.condensed_index(n, i, j)]) != oracle(name, w, R[i], R[j]):
                 raise Violation("tcr-pdist-layout", f"{name} weights={w}: condensed entry for (i={i}, j={j}) = {v[O.condensed_index(n, i, j)]!r}, "
                                                     f"expected {oracle(name, w, R[i], R[j])}")
+    # the same table object as anchors AND comparisons: the full square matrix, both triangles (d(i,j) != d(j,i) when
+    # insertion and deletion weights differ), and once more against a copy
+    for tag, other in (("same-object", dfR), ("copy", dfR.copy(deep=True))):
+        gs = np.asarray(call("cdist", m.calc_cdist_matrix, dfR, other)).astype(float)
+        wants = np.array([[oracle(name, w, r, s) for s in R] for r in R], dtype=float)
+        if gs.shape != wants.shape or not np.array_equal(gs, wants):
+            bad = "shape" if gs.shape != wants.shape else tuple(int(x) for x in np.argwhere(gs != wants)[0])
+            raise Violation("tcr-self-cdist", f"{name} weights={w}: cdist of a table with itself ({tag}) differs from the weighted sum at {bad}")
     # row permutation / relabelling
     perm = list(range(n))[::-1]
     dfP = dfR.iloc[perm]
